@@ -800,23 +800,49 @@ def regenerate_routes() -> dict:
 
 def regenerate(mods: list[str] | None = None) -> dict:
     """Regenerates ALL modules of translate_spec (the dispatcher imports every one); returns the
-    info of the requested ones."""
+    info of the requested ones.  A module that cannot be translated breaks the tie only of the checks
+    that REQUEST it (directly or through `uses`): its error is raised when it is among `mods`; otherwise
+    its previous text stays in place and the other modules are regenerated as usual."""
     import translate_spec
-    out = {}
+    out, failed = {}, {}
     for m in translate_spec.SPEC:
-        out[m] = translate_module(m, translate_spec.SPEC[m])
+        try:
+            out[m] = translate_module(m, translate_spec.SPEC[m])
+        except TranslateError as e:
+            failed[m] = e
     emit_dispatch(out)
-    routes = regenerate_routes()
     man = {m: {f: d["source_sha"] for f, d in o["functions"].items()} for m, o in out.items()}
-    man["Routes"] = {k: v["sha"] for k, v in routes["defs"].items()}
+    routes = prog = None
+    try:
+        routes = regenerate_routes()
+        man["Routes"] = {k: v["sha"] for k, v in routes["defs"].items()}
+    except TranslateError as e:
+        failed["Routes"] = e
+    try:
+        import progtx
+        prog = progtx.regenerate()      # whole method bodies of RecordTensor (statement-level translator)
+        man["RingProg"] = prog["functions"]
+    except TranslateError as e:
+        failed["RingProg"] = e
     (GEN / "MANIFEST.json").write_text(json.dumps(man, indent=1))
+    wanted = list(mods) if mods else list(translate_spec.SPEC) + ["Routes", "RingProg"]
+    k = 0
+    while k < len(wanted):                     # closure under `uses`
+        for u in translate_spec.SPEC.get(wanted[k], {}).get("uses", []):
+            if u not in wanted:
+                wanted.append(u)
+        k += 1
+    for m in wanted:
+        if m in failed:
+            raise failed[m]
+    extra = {}
     if mods and "Routes" in mods:
-        mods = [m for m in mods if m != "Routes"]
-        extra = {"Routes": {"functions": man["Routes"], "rewritten": routes["rewritten"]}}
-    else:
-        extra = {}
+        extra["Routes"] = {"functions": man["Routes"], "rewritten": routes["rewritten"]}
+    if mods and "RingProg" in mods:
+        extra["RingProg"] = prog
+    sel = [m for m in (mods or out) if m not in ("Routes", "RingProg")]
     return extra | {m: {"functions": {f: d["source_sha"] for f, d in out[m]["functions"].items()}, "rewritten": out[m]["rewritten"]}
-            for m in (mods or out)}
+                    for m in sel}
 
 
 if __name__ == "__main__":
